@@ -20,7 +20,7 @@ func LockStat(p *load.Program) {
 	type key struct{ st, field string }
 	type stat struct {
 		locked, unlocked int
-		sites           []string
+		sites            []string
 	}
 	stats := map[key]*stat{}
 	for _, f := range e.RepoFuncsSorted() {
